@@ -51,6 +51,7 @@ World::~World() {
   for (auto& x : m) x.reset();
   for (auto& x : mv) x.reset();
   for (auto& x : seq) x.reset();
+  parked_seq.clear();
   while (ntracer > 0) { --ntracer; rec[ntracer].reset(); box[ntracer].reset(); }
   trompeloeil::set_reporter(make_reporter(0), make_ok_reporter(0));
   g_world = nullptr;
@@ -203,7 +204,15 @@ Outcome World::apply(const Op& op) {
       case OP_MOVE_MOCK: mv[op.k1 - 2].reset(new MV(std::move(*mv[op.obj - 2]))); break;
       case OP_DESTROY_SEQ: sort_reports = armed != 0; seq[op.s1].reset(); break;
       case OP_MOVE_SEQ: seq[op.s1].reset(new trompeloeil::sequence(std::move(*seq[op.s1]))); break;
-      case OP_ASSIGN_SEQ: sort_reports = armed != 0; *seq[op.s1] = trompeloeil::sequence{}; break;
+      case OP_ASSIGN_SEQ:
+        sort_reports = armed != 0;
+        if (op.k1 == 0) { *seq[op.s1] = trompeloeil::sequence{}; break; }
+        // from a named sequence object that stays alive: the target object now carries the source's state (the harness keeps
+        // calling it s2), the moved-from source object is parked until the world is dismantled
+        *seq[op.s1] = std::move(*seq[op.s2]);
+        std::swap(seq[op.s1], seq[op.s2]);
+        parked_seq.push_back(std::move(seq[op.s1]));
+        break;
       case OP_NEW_WATCHED: w[op.obj].reset(new WObj); break;
       case OP_DELETE_WATCHED: sort_reports = true; w[op.obj].reset(); break;
       case OP_COPY_WATCHED:  // k2 = 0: copy from a const lvalue (the copy constructor proper); k2 = 1: from a non-const lvalue (picks the forwarding constructor)
